@@ -195,8 +195,8 @@ def gen(rng, tier):
     ref = setup_world(case)
     drive(ref, [['run']], max_steps=3000)
     dues = sorted(set((r[8] if big_int_clock else float(r[8])) for r in ref.env.log if r[0] == 'T'))
-    ok_events = [r[2] for r in ref.env.log if r[0] == 'P' and r[5] in (True, False) and
-                 (r[2] in ref.shared or r[2] in ref.procs or r[2] in ref.named)]
+    # until-events are chosen from the program text, not from what the code under test did with it
+    ok_events = sorted(set(list(ref.shared) + list(ref.procs) + list(ref.named)))
     never = [lb for lb in list(ref.shared) if lb not in set(r[2] for r in ref.env.log if r[0] == 'P')]
     plan = []
     t0 = case['t0']
